@@ -181,3 +181,65 @@ Definition filter_events (db : logdb) (cs : list ecrit) (o : fopts) : option (li
   run_filter er_seq (any_crit ev_match cs) o (db_events db).
 Definition filter_transfers (db : logdb) (cs : list tcrit) (o : fopts) : option (list trrow) :=
   run_filter tr_seq (any_crit tr_match cs) o (db_transfers db).
+
+(* ---- specification: the rows the receipts of a block prescribe, with their positions (not used by the oracle) ----
+   position of a log = (block number, index of its tx in the block, running index of the log among the block's events
+   resp. transfers); each row also carries the clause index, block id / time, tx id and origin *)
+Definition pack (b t l : N) : N := b * 34359738368 + t * 1048576 + l.
+Definition lenN {A} (l : list A) : N := N.of_nat (length l).
+
+Fixpoint spec_events (bid bnum btime txid origin txi clause ec : N) (evs : list event) : list evrow :=
+  match evs with
+  | [] => []
+  | e :: evs' => mkER (pack bnum txi ec) bid btime txid origin clause (ev_addr e) (firstn 5 (ev_topics e)) (ev_dlen e) (ev_data e)
+                 :: spec_events bid bnum btime txid origin txi clause (ec + 1) evs'
+  end.
+Fixpoint spec_transfers (bid bnum btime txid origin txi clause tc : N) (trs : list transfer) : list trrow :=
+  match trs with
+  | [] => []
+  | t :: trs' => mkTR (pack bnum txi tc) bid btime txid origin clause (tr_from t) (tr_to t) (tr_amount t)
+                 :: spec_transfers bid bnum btime txid origin txi clause (tc + 1) trs'
+  end.
+Fixpoint spec_outputs_ev (bid bnum btime txid origin txi clause ec : N) (outs : list (list event * list transfer)) : list evrow :=
+  match outs with
+  | [] => []
+  | (evs, _) :: outs' => spec_events bid bnum btime txid origin txi clause ec evs
+                         ++ spec_outputs_ev bid bnum btime txid origin txi (clause + 1) (ec + lenN evs) outs'
+  end.
+Fixpoint spec_outputs_tr (bid bnum btime txid origin txi clause tc : N) (outs : list (list event * list transfer)) : list trrow :=
+  match outs with
+  | [] => []
+  | (_, trs) :: outs' => spec_transfers bid bnum btime txid origin txi clause tc trs
+                         ++ spec_outputs_tr bid bnum btime txid origin txi (clause + 1) (tc + lenN trs) outs'
+  end.
+Fixpoint count_ev (outs : list (list event * list transfer)) : N :=
+  match outs with [] => 0 | (evs, _) :: o => lenN evs + count_ev o end.
+Fixpoint count_tr (outs : list (list event * list transfer)) : N :=
+  match outs with [] => 0 | (_, trs) :: o => lenN trs + count_tr o end.
+Definition tx_ident (txs : list txrec) : N * N := match txs with t :: _ => (tx_id t, tx_origin t) | [] => (0, 0) end.
+Fixpoint spec_receipts_ev (bid bnum btime : N) (txs : list txrec) (rcs : list receipt) (txi ec : N) : list evrow :=
+  match rcs with
+  | [] => []
+  | rc :: rcs' => spec_outputs_ev bid bnum btime (fst (tx_ident txs)) (snd (tx_ident txs)) txi 0 ec (rc_outs rc)
+                  ++ spec_receipts_ev bid bnum btime (tl txs) rcs' (txi + 1) (ec + count_ev (rc_outs rc))
+  end.
+Fixpoint spec_receipts_tr (bid bnum btime : N) (txs : list txrec) (rcs : list receipt) (txi tc : N) : list trrow :=
+  match rcs with
+  | [] => []
+  | rc :: rcs' => spec_outputs_tr bid bnum btime (fst (tx_ident txs)) (snd (tx_ident txs)) txi 0 tc (rc_outs rc)
+                  ++ spec_receipts_tr bid bnum btime (tl txs) rcs' (txi + 1) (tc + count_tr (rc_outs rc))
+  end.
+Definition block_events (b : blk) : list evrow := spec_receipts_ev (b_id b) (num_of (b_id b)) (b_time b) (b_txs b) (b_rcs b) 0 0.
+Definition block_transfers (b : blk) : list trrow := spec_receipts_tr (b_id b) (num_of (b_id b)) (b_time b) (b_txs b) (b_rcs b) 0 0.
+
+(* the logs of a chain, oldest block first; the argument is the path newest first *)
+Fixpoint chain_events (r : repo) (path_desc : list N) : list evrow :=
+  match path_desc with
+  | [] => []
+  | id :: older => chain_events r older ++ match get_block r id with Some (_, b) => block_events b | None => [] end
+  end.
+Fixpoint chain_transfers (r : repo) (path_desc : list N) : list trrow :=
+  match path_desc with
+  | [] => []
+  | id :: older => chain_transfers r older ++ match get_block r id with Some (_, b) => block_transfers b | None => [] end
+  end.
